@@ -121,3 +121,80 @@ theorem C08_row_denotes (k : SupKind) (cfg : SupConfig) (c : Nat) :
   rw [C08_wiring_generated]
   cases k <;> cases h : cfg.nConstraints <;>
     simp [findSupRow, expectedSupWiring, SupKind.className, rowGenerator, wiringOf, resolveN, defaultNConstraints, h, List.find?]
+
+/-! ## leaving the unlabeled rows out altogether
+
+`L′ = knownLabels L` is the label vector of the data set without its unlabeled rows (row `i` of the reduced set is row
+`knownIdx L [i]` of the full one).  For the same random draws the helper finds, on the reduced set, exactly the pairs it
+finds on the full set — re-indexed through `knownIdx L` — so the tuples handed to the base solver are the same. -/
+
+theorem knownIdx_allKnown (K : List Int) (h : ∀ x ∈ K, 0 ≤ x) : knownIdx K = List.range K.length := by
+  unfold knownIdx
+  rw [List.filter_eq_self]
+  intro i hi
+  rw [List.mem_range] at hi
+  have : K.getD i (-1) ∈ K := by
+    rw [List.getD_eq_getElem?_getD, List.getElem?_eq_getElem hi]; exact List.getElem_mem hi
+  simpa using h _ this
+
+theorem knownLabels_nonneg (L : List Int) : ∀ x ∈ knownLabels L, 0 ≤ x := by
+  intro x hx
+  unfold knownLabels at hx
+  rw [List.mem_map] at hx
+  obtain ⟨i, hi, rfl⟩ := hx
+  unfold knownIdx at hi
+  rw [List.mem_filter] at hi
+  simpa using hi.2
+
+/-- the reduced label vector has no unlabeled entry: its known labels are itself -/
+theorem knownLabels_idem (L : List Int) : knownLabels (knownLabels L) = knownLabels L := by
+  have h := knownIdx_allKnown (knownLabels L) (knownLabels_nonneg L)
+  unfold knownLabels at h ⊢
+  rw [h]
+  apply List.ext_getElem
+  · simp
+  · intro i h1 h2
+    simp only [List.getElem_map, List.getElem_range]
+    simp only [List.length_map] at h2
+    rw [List.getD_eq_getElem?_getD, List.getElem?_eq_getElem (by simpa using h2)]
+    simp
+
+/-- **dropping the unlabeled rows**: for every oracle, the pairs found on the reduced label vector, re-indexed through
+`knownIdx L`, are the pairs found on the full label vector, with the same warning flag -/
+theorem C08_drop_unlabeled_pairs (L : List Int) (same : Bool) (n : Nat) (rounds : List (List Draw))
+    (qs : List (Nat × Nat)) (w : Bool) (h : pairsOf L same n rounds = some (qs, w)) :
+    ∃ qs', pairsOf (knownLabels L) same n rounds = some (qs', w) ∧
+      qs = qs'.map fun p => ((knownIdx L).getD p.1 0, (knownIdx L).getD p.2 0) := by
+  unfold pairsOf at h ⊢
+  rw [knownLabels_idem]
+  cases hl : pairsLoop (knownLabels L) same n 10 rounds [] with
+  | none => rw [hl] at h; simp at h
+  | some ab =>
+    rw [hl] at h
+    simp only [Option.map_some, Option.some.injEq, Prod.mk.injEq] at h ⊢
+    obtain ⟨hq, hw⟩ := h
+    refine ⟨mapBack (knownLabels L) (ab.take n), ⟨rfl, hw⟩, ?_⟩
+    have hsound := (pairsLoop_spec 10 rounds [] ab hl (by intro p hp; simp at hp) List.nodup_nil (Nat.zero_le _)).1
+    rw [← hq]
+    unfold mapBack
+    rw [List.map_map]
+    apply List.map_congr_left
+    intro p hp
+    have hp' := hsound p (List.mem_of_mem_take hp)
+    have hk := knownIdx_allKnown (knownLabels L) (knownLabels_nonneg L)
+    simp only [Function.comp_def, hk]
+    have e1 : (List.range (knownLabels L).length).getD p.1 0 = p.1 := by
+      rw [List.getD_eq_getElem?_getD, List.getElem?_eq_getElem (by simpa using hp'.1)]; simp
+    have e2 : (List.range (knownLabels L).length).getD p.2 0 = p.2 := by
+      rw [List.getD_eq_getElem?_getD, List.getElem?_eq_getElem (by simpa using hp'.2.1)]; simp
+    rw [e1, e2]
+
+/-- hence the formed tuples coincide: gathering the full data at the full-set pairs = gathering the reduced data
+(`X′ i = X (knownIdx L [i])`) at the reduced-set pairs -/
+theorem C08_drop_unlabeled_formed (L : List Int) (X : Nat → α) (qs' : List (Nat × Nat)) :
+    (qs'.map fun p => ((knownIdx L).getD p.1 0, (knownIdx L).getD p.2 0)).map (fun q => [X q.1, X q.2]) =
+      qs'.map fun p => [(fun i => X ((knownIdx L).getD i 0)) p.1, (fun i => X ((knownIdx L).getD i 0)) p.2] := by
+  rw [List.map_map]; rfl
+
+/-- non-vacuity: a label vector with unlabeled entries in front of and between labelled ones -/
+example : knownIdx [-1, 0, 1, -1, 0] = [1, 2, 4] ∧ knownLabels [-1, 0, 1, -1, 0] = [0, 1, 0] := by decide
